@@ -10,7 +10,7 @@ projection of a meta-model source text onto what the structural rules of C06 tal
 `check : MM → List RuleId` is an executable checker *structured like the battery of the real
 front end*: the stages follow `parse._translate._classdef_to_our_type` / `_verify_duplicate_names`
 (stage 1), `_verify_symbol_table` (stages 2–4), `intermediate._hierarchy.map_symbol_table_to_ontology`
-(stages 5–6: depth-first search with temporary/permanent marks, dictionaries of observed members),
+(stages 5–6: depth-first search with temporary/permanent marks, dictionaries of observed members; the clash between two ancestors is tested on all pairs of ancestors, which reports the same verdict as the dictionary),
 `intermediate._translate.translate` second passes (stage 7) and `_verify` (stage 8).  As in the
 implementation, a stage that reports errors ends the run: `check` returns the errors of the first
 failing stage.
@@ -102,7 +102,7 @@ inductive RuleId where
   | reservedConstantName | reservedFunctionName
   | missingBase | baseNotClass | danglingType
   | cycle
-  | redeclaredProperty | redeclaredMethod | ctorMissingInherited
+  | redeclaredProperty | redeclaredMethod | inheritedClash | ctorMissingInherited
   | danglingDocClass | danglingDocConst | danglingDocAttr
   | ctorDefault | ctorPropInit | ctorMissing | ctorArgNames | ctorArgOrder | ctorArgType
   | nestedOptional | listOfOptional
@@ -284,9 +284,17 @@ def ctorHasArgs (a : Cls) : Bool :=
   | some (_ :: _) => true
   | _ => false
 
+/-- Two different ancestors declare a property of the same name (the dictionary of observed
+properties already holds the name for another ancestor). -/
+def clashing (a b : Cls) : Bool := a.name != b.name && a.propNames.any (fun n => decide (n ∈ b.propNames))
+
+def ancestorPairs (cs : List Cls) (c : Cls) : List (Cls × Cls) :=
+  (ancestorClasses cs c).flatMap (fun a => (ancestorClasses cs c).map (fun b => (a, b)))
+
 def stage6 (m : MM) : List RuleId :=
   m.classes.flatMap (fun c =>
-    report .redeclaredProperty (fun n => decide (n ∈ inheritedMemberNames m.classes c)) c.propNames
+    report .inheritedClash (fun ab => clashing ab.1 ab.2) (ancestorPairs m.classes c)
+    ++ report .redeclaredProperty (fun n => decide (n ∈ inheritedMemberNames m.classes c)) c.propNames
     ++ report .redeclaredMethod (fun n => decide (n ∈ inheritedMemberNames m.classes c)) c.methods
     ++ (if c.ctor.isNone then report .ctorMissingInherited ctorHasArgs (ancestorClasses m.classes c) else []))
 
@@ -515,6 +523,9 @@ structure Spec (m : MM) : Prop where
   acyclic : ∀ n, ¬ Reach m.classes n n
   /-- no re-declared inherited member -/
   noRedeclaration : ∀ c ∈ m.classes, ∀ n ∈ c.propNames ++ c.methods, n ∉ inheritedMemberNames m.classes c
+  /-- inherited properties are unique: two different ancestors never declare a property of the same name -/
+  inheritedUnique : ∀ c ∈ m.classes, ∀ a ∈ ancestorClasses m.classes c, ∀ b ∈ ancestorClasses m.classes c,
+    a.name ≠ b.name → ∀ n ∈ a.propNames, n ∉ b.propNames
   /-- a class without constructor has no ancestor whose constructor takes arguments -/
   ctorInherited : ∀ c ∈ m.classes, c.ctor = none → ∀ a ∈ ancestorClasses m.classes c, ctorHasArgs a = false
   /-- documentation references resolve -/
